@@ -18,6 +18,8 @@ pub fn dispatch(op: &str, case: &Value) -> Value {
         "page_limit" => op_page_limit(case),
         "page_limit_bad" => op_page_limit_bad(case),
         "scan" => op_scan(case),
+        "response" => op_response(case),
+        "response_headers" => op_response_headers(case),
         _ => json!({"error": format!("unknown op {}", op)}),
     }
 }
@@ -599,4 +601,138 @@ fn op_scan(case: &Value) -> Value {
         let _ = server.close().await;
         out
     })
+}
+
+// ---------------------------------------------------------------------------------- C12
+#[derive(Debug, Clone, PartialEq, Deserialize, Serialize, JsonSchema)]
+struct Payload {
+    name: String,
+    small: u8,
+    big: u64,
+    huge: u128,
+    neg: i128,
+    f: f64,
+    opt: Option<String>,
+    list: Vec<i32>,
+    map: std::collections::BTreeMap<String, bool>,
+}
+
+fn payloads() -> Vec<Payload> {
+    let base = Payload { name: "plain".into(), small: 1, big: 2, huge: 3, neg: -4, f: 1.5, opt: None, list: vec![], map: Default::default() };
+    vec![
+        base.clone(),
+        Payload { name: "uni \u{1F600} \"quoted\" \\ \n".into(), opt: Some("é".into()), list: vec![i32::MIN, 0, i32::MAX], ..base.clone() },
+        Payload { big: u64::MAX, huge: u64::MAX as u128, neg: i64::MIN as i128, ..base.clone() },
+        Payload { huge: u64::MAX as u128 + 1, ..base.clone() },
+        Payload { huge: u128::MAX, neg: i128::MIN, small: u8::MAX, ..base.clone() },
+        Payload { f: -0.0, map: [("k".to_string(), true)].into_iter().collect(), ..base.clone() },
+    ]
+}
+
+fn collect_body(resp: hyper::Response<dropshot::Body>) -> (u16, Vec<(String, String)>, Vec<u8>) {
+    use http_body_util::BodyExt;
+    let status = resp.status().as_u16();
+    let hs = resp.headers().iter().map(|(k, v)| (k.as_str().to_string(), v.to_str().unwrap_or("?").to_string())).collect();
+    let rt = tokio::runtime::Builder::new_current_thread().enable_all().build().unwrap();
+    let bytes = rt.block_on(async move { resp.into_body().collect().await.map(|c| c.to_bytes().to_vec()).unwrap_or_default() });
+    (status, hs, bytes)
+}
+
+/// {"op":"response","kind":K[, "location":s]}
+fn op_response(case: &Value) -> Value {
+    use dropshot::HttpResponse;
+    let kind = case["kind"].as_str().unwrap();
+    let mut detail = vec![];
+    let mut ok = true;
+    match kind {
+        "HttpResponseCreated" | "HttpResponseAccepted" | "HttpResponseOk" => {
+            for p in payloads() {
+                let (r, want) = match kind {
+                    "HttpResponseCreated" => (dropshot::HttpResponseCreated(p.clone()).to_result(), 201),
+                    "HttpResponseAccepted" => (dropshot::HttpResponseAccepted(p.clone()).to_result(), 202),
+                    _ => (dropshot::HttpResponseOk(p.clone()).to_result(), 200),
+                };
+                match r {
+                    Err(e) => { ok = false; detail.push(json!({"payload": p.name, "huge": p.huge.to_string(), "error": e.status_code.as_u16(), "internal": e.internal_message})); }
+                    Ok(resp) => {
+                        let (status, hs, body) = collect_body(resp);
+                        let back: Option<Payload> = serde_json::from_slice(&body).ok();
+                        let ct: Vec<&String> = hs.iter().filter(|(k, _)| k == "content-type").map(|(_, v)| v).collect();
+                        let good = status == want && ct == vec!["application/json"] && back.as_ref() == Some(&p);
+                        if !good { ok = false; detail.push(json!({"payload": p.name, "status": status, "headers": hs.len(), "roundtrip": back == Some(p.clone())})); }
+                    }
+                }
+            }
+        }
+        "HttpResponseDeleted" | "HttpResponseUpdatedNoContent" => {
+            let r = if kind == "HttpResponseDeleted" { dropshot::HttpResponseDeleted().to_result() } else { dropshot::HttpResponseUpdatedNoContent().to_result() };
+            match r {
+                Err(e) => { ok = false; detail.push(json!({"error": e.status_code.as_u16()})); }
+                Ok(resp) => { let (status, hs, body) = collect_body(resp); ok = status == 204 && body.is_empty(); detail.push(json!({"status": status, "headers": hs, "body_len": body.len()})); }
+            }
+        }
+        _ => {
+            let loc = case["location"].as_str().unwrap_or("/some/where?x=1").to_string();
+            let legal = http::HeaderValue::from_str(&loc).is_ok();
+            let (r, want) = match kind {
+                "http_response_found" => (dropshot::http_response_found(loc.clone()).and_then(|x| x.to_result()), 302),
+                "http_response_see_other" => (dropshot::http_response_see_other(loc.clone()).and_then(|x| x.to_result()), 303),
+                _ => (dropshot::http_response_temporary_redirect(loc.clone()).and_then(|x| x.to_result()), 307),
+            };
+            match r {
+                Err(e) => { ok = !legal && e.status_code.as_u16() >= 500; detail.push(json!({"error": e.status_code.as_u16(), "legal": legal})); }
+                Ok(resp) => {
+                    let (status, hs, body) = collect_body(resp);
+                    let locs: Vec<&String> = hs.iter().filter(|(k, _)| k == "location").map(|(_, v)| v).collect();
+                    ok = legal && status == want && body.is_empty() && locs == vec![&loc];
+                    detail.push(json!({"status": status, "headers": hs}));
+                }
+            }
+        }
+    }
+    json!({"as_specified": ok, "detail": detail})
+}
+
+#[derive(Serialize, JsonSchema)]
+struct Declared0 {}
+#[derive(Serialize, JsonSchema)]
+struct Declared1 { #[serde(rename = "x-a")] a: String }
+#[derive(Serialize, JsonSchema)]
+struct Declared2 { #[serde(rename = "x-a")] a: String, #[serde(rename = "x-b")] b: String }
+
+/// {"op":"response_headers","declared":[names],"explicit":[names]}
+fn op_response_headers(case: &Value) -> Value {
+    use dropshot::HttpResponse;
+    let declared: Vec<String> = case["declared"].as_array().unwrap().iter().map(|x| x.as_str().unwrap().to_string()).collect();
+    let explicit: Vec<String> = case["explicit"].as_array().unwrap().iter().map(|x| x.as_str().unwrap().to_string()).collect();
+    let add = |hm: &mut http::HeaderMap| {
+        for (i, n) in explicit.iter().enumerate() {
+            hm.append(http::HeaderName::from_bytes(n.as_bytes()).unwrap(), http::HeaderValue::from_str(&format!("explicit-{}", i)).unwrap());
+        }
+    };
+    let body = dropshot::HttpResponseOk(7u32);
+    let r = match declared.len() {
+        0 => { let mut h = dropshot::HttpResponseHeaders::new(body, Declared0 {}); add(h.headers_mut()); h.to_result() }
+        1 => { let mut h = dropshot::HttpResponseHeaders::new(body, Declared1 { a: "declared-0".into() }); add(h.headers_mut()); h.to_result() }
+        _ => { let mut h = dropshot::HttpResponseHeaders::new(body, Declared2 { a: "declared-0".into(), b: "declared-1".into() }); add(h.headers_mut()); h.to_result() }
+    };
+    match r {
+        Err(e) => json!({"as_specified": false, "error": e.status_code.as_u16()}),
+        Ok(resp) => {
+            let (status, hs, _) = collect_body(resp);
+            let mut want: Vec<(String, String)> = vec![];
+            for (i, n) in declared.iter().enumerate() {
+                if !explicit.contains(n) { want.push((n.clone(), format!("declared-{}", i))); }
+            }
+            for (i, n) in explicit.iter().enumerate() { want.push((n.clone(), format!("explicit-{}", i))); }
+            let mut got: Vec<(String, String)> = hs.iter().filter(|(k, _)| k != "content-type").cloned().collect();
+            let per_name_order = explicit.iter().all(|n| {
+                let g: Vec<&String> = got.iter().filter(|(k, _)| k == n).map(|(_, v)| v).collect();
+                let w: Vec<&String> = want.iter().filter(|(k, _)| k == n).map(|(_, v)| v).collect();
+                g == w
+            });
+            got.sort(); want.sort();
+            json!({"as_specified": status == 200 && got == want && per_name_order, "status": status, "headers": hs})
+        }
+    }
 }
